@@ -571,6 +571,8 @@ def run(ctx, rep, tier):
     _values_and_names_in_c(ctx, rep, tier)
     from .shared import delegate
     delegate(ctx, rep, tier, "C18", ("C18.r",), "C11.q", "every value of the generation options yields code: range collapsing does not index an empty symbol list (--collapsed-range-length 0)")
+    delegate(ctx, rep, tier, "C15", ("C15.g",), "C11.t", "byte tests compare the input with values in 0..255: case folding of a literal is confined to the ASCII letters (a code point "
+             "above 0xff in `inval == N` is refused by clang -Wall -Werror; a two-character upper case makes the generator crash)")
 
 
 # ---------------------------------------------------------------------------------------------------------------- C11.s
